@@ -16,10 +16,10 @@
   * `C13_fan_test_iff`, `C13_fan_first_side_weak_witness` — exactly what the star test guarantees on its first
       examined side: nothing about its magnitude; a degenerate first triangle is accepted (witness).
 
-  NOT PROVED: that the triangles carry the coordinates of the vertex-list triangles (`earclipTriangles`,
-  `fanTriangles`) when read through the vertex identifiers of the result — this needs the vertex orbits and the history
-  of the vertex slots (merges of equal copies, `avg v v = v`) through every intermediate map of the sew loops; the
-  oracle of c13.py checks it on every case.
+  NOT PROVED: that the triangles of EAR CLIPPING carry the coordinates of `earclipTriangles` when read through the
+  vertex identifiers of the result (the oracle of c13.py checks it on every case).  For the two fan kernels this tie
+  is proved in Props/C13d.lean (`C13_fan_triangles_carry_list_coordinates`) with the value calculus of
+  Lemmas/PosCalc.lean.
 -/
 import Honeycomb.Props.C13b
 import Honeycomb.Props.C14b
